@@ -103,12 +103,14 @@ class Landscape:
 class StubRng:
     """Forces / records the visiting order of backward()."""
 
-    def __init__(self, script, real=None):
-        self.script, self.real, self.orders = script, real, []
+    def __init__(self, script, real=None, forced=None):
+        self.script, self.real, self.orders, self.forced = script, real, [], forced
 
     def permutation(self, x):
         xs = list(x) if not isinstance(x, (int, np.integer)) else list(range(int(x)))
-        if self.real is not None:
+        if self.forced is not None and sorted(self.forced) == sorted(xs):
+            o = list(self.forced)
+        elif self.real is not None:
             o = [int(v) for v in self.real.permutation(x)]
         else:
             perms = list(itertools.permutations(xs))
@@ -213,13 +215,15 @@ def judge(ls, std, ncand, init, order, R, st):
 
 
 # ----------------------------------------------------------------------------- running the implementation
-def run_driver(disc, std, ncand, ninit, script, vals=None, T=4):
+def run_driver(disc, std, ncand, ninit, script, vals=None, T=4, preset=None, forced=None):
     ls = Landscape(ncand, script, vals=vals)
+    if preset is not None:
+        ls.f, ls.g = dict(preset[0]), dict(preset[1])
     X = np.tile(np.arange(ncand, dtype=float), (T, 1))
     Y = np.full((T, 1), 999.0)
     Zi = np.tile(np.arange(ncand, ncand + ninit, dtype=float), (T, 1)) if std else None
     init = list(range(ncand, ncand + ninit)) if std else []
-    stub = StubRng(script)
+    stub = StubRng(script, forced=forced)
 
     def cmi(Xj, Yv, Z=None, **kw):
         assert Yv[0, 0] == 999.0
@@ -412,18 +416,24 @@ def run(chk):
 
 
 def replay(chk, rep):
+    """Re-runs the real driver on the recorded landscape (entries it does not contain default to 0 / fail)
+    with the recorded visiting order and judges the result against everything the rule allows."""
     import causationentropy.core.discovery as disc
     r = rep["replay"].get("first_disagreeing_case", rep["replay"])
     std, ncand = r["variant"] == "standard", r["candidates"]
-
-    class Fixed(Script):
-        pass
-    ls = Landscape(ncand, Script())
-    ls.f = {(j, frozenset(zs)): v for j, zs, v in r["f"]}
-    ls.g = {(j, frozenset(zs), a): v for j, zs, a, v in r["g"]}
-    allowed = {tuple(sorted(a)) for a in allowed_results(ls, std, ncand, r["init"])}
-    print("replay: allowed by the rule:", sorted(allowed), " implementation reported:", r["impl_result"])
-    if tuple(sorted(r["impl_result"])) not in allowed:
-        chk.violation("counterexample", "result not allowed by the oCSE rule", r)
+    f = {(j, frozenset(zs)): v for j, zs, v in r["f"]}
+    g = {(j, frozenset(zs), a): v for j, zs, a, v in r["g"]}
+    init = r["init"]
+    if r.get("through") == "discover_network" or any(i < ncand for i in init):
+        print("replay: landscape recorded through discover_network; re-judging the recorded result")
+        R = r["impl_result"]
+        ls = Landscape(ncand, Script())
+        ls.f, ls.g = f, g
+    else:
+        ls, init, order, R = run_driver(disc, std, ncand, len(init), Script(), preset=(f, g), forced=r["backward_order"])
+    allowed = {tuple(sorted(a)) for a in allowed_results(ls, std, ncand, init)}
+    print("replay: allowed by the rule:", sorted(allowed), " implementation reports:", R)
+    if tuple(sorted(R)) not in allowed:
+        chk.violation("counterexample", f"parents {R} not allowed by the oCSE rule", r)
     chk.case(key="replay", sample=r)
     chk.case(key="replay2")
